@@ -116,6 +116,10 @@ class DirHandler(BaseHandler):
         except OSError:
             return False
 
+        if not stat.S_ISREG(statval[stat.ST_MODE]):
+            # Not a cache file of ours; opening a FIFO would block for ever.
+            return False
+
         if time.time() - statval[stat.ST_MTIME] < self.cachetime:
             try:
                 with self.vfs.open(self.cachename, "rb") as fp:
@@ -140,6 +144,12 @@ class DirHandler(BaseHandler):
             return
         if not self.vfs.iswritable(self.cachename):
             return
+        try:
+            if not stat.S_ISREG(self.vfs.stat(self.cachename)[stat.ST_MODE]):
+                # Something else has that name: leave it alone.
+                return
+        except OSError:
+            pass
         try:
             with self.vfs.open(self.cachename, "wb") as fp:
                 pickle.dump((self.selector, self.fileentries), fp, 1)
